@@ -41,6 +41,26 @@ class C11(Prop):
 
     def harness(self, ctx):
         obs = {}
+        # the 33 s idle scenario runs beside the others
+        import threading
+        idle = {}
+
+        def run_idle():
+            idle["r"] = C.go_test_overlay(ctx.work, "./agent/websockets/", "TestVerifC11Idle$", OVERLAY, "C11Idle.jsonl", ctx.seed, ctx.tier, timeout=600)
+        th = threading.Thread(target=run_idle)
+        th.start()
+        try:
+            self._harness_rest(ctx, obs)
+        finally:
+            th.join()
+        rc, out, p, dt = idle["r"]
+        rows = C.read_jsonl(p)
+        if rc != 0 or not rows:
+            raise RuntimeError("C11 harness C11Idle did not run: rc=%s\n%s" % (rc, out[-2000:]))
+        obs["C11Idle"] = rows
+        return obs
+
+    def _harness_rest(self, ctx, obs):
         for name in ("C11", "C11Inject", "C11B64", "C11Tail"):
             rc, out, p, dt = C.go_test_overlay(ctx.work, "./agent/websockets/", "TestVerif%s$" % name, OVERLAY, name + ".jsonl", ctx.seed, ctx.tier, timeout=1800)
             rows = C.read_jsonl(p)
@@ -76,6 +96,15 @@ class C11(Prop):
                 res.append(("session-open-failed", "%s (status %s)" % (r["error"], r.get("status")), rp))
             elif not r["s2c_equal"]:
                 res.append(("server-to-client:lost-at-end-of-stream", "%d of the %d messages sent before the backend ended the connection were polled" % (len(r["s2c_polled"] or []), len(r["s2c_sent"] or [])), rp))
+        for r in obs.get("C11Idle", []):
+            rp = {"driver": "TestVerifC11Idle: one message each way, %s ms of silence (one empty long poll, then nothing), one message each way" % r.get("silence_ms"), "observed": r}
+            if r.get("error"):
+                res.append(("session-open-failed", "%s (status %s)" % (r["error"], r.get("status")), rp))
+            else:
+                if not r.get("after_s2c_ok"):
+                    res.append(("server-to-client:lost-after-silence", "a server message sent after %s ms of silence was not delivered (poll answered %s)" % (r.get("silence_ms"), r.get("after_poll_status")), rp))
+                if not r.get("after_c2s_ok"):
+                    res.append(("client-to-server:lost-after-silence", "a client message posted after %s ms of silence was not delivered (data post answered %s)" % (r.get("silence_ms"), r.get("after_data_status")), rp))
         for r in obs["C11Inject"]:
             rp = {"driver": "TestVerifC11Inject", "sent": r["sent"], "received": r.get("received"), "request_headers": r["request_headers"]}
             if not r["delivered"] or r["status"] != 200:
